@@ -3,6 +3,7 @@
 // every oracle on every conversation; a run for property X reports only failures charged to X.
 #include "common.hpp"
 #include "../engine/convsim.hpp"
+#include "../engine/nontrivial.hpp"
 #include <rapidcheck.h>
 
 using namespace cs;
@@ -72,25 +73,6 @@ static rc::Gen<Script> genScript(const std::string &focus)
 		},
 		rng<int>(0, 6), rng<int>(0, 5), rng<int>(0, 4), rng<int>(0, 3), gen::weightedOneOf<int>({{1, gen::element<int>(0, 1, 0xffff)}, {3, rng<int>(0, 0xffff)}}), rng<int>(0, SERIAL_N - 1),
 		gen::oneOf(genMask(1), genMask(2), genMask(0)), gen::oneOf(genMask(0), genMask(1)), rng<int>(0, 1), gen::container<std::vector<Step>>(genStep(focus)));
-}
-
-static bool has(const Report &r, const char *k) { auto it = r.cls.find(k); return it != r.cls.end() && it->second > 0; }
-static long num(const Report &r, const char *k) { auto it = r.cls.find(k); return it == r.cls.end() ? 0 : it->second; }
-
-static bool nontrivial(const std::string &prop, const Report &r)
-{
-	if (prop == "C03") return has(r, "failed-after-partial-application(undo-path)") || has(r, "reload-completed(data-present-before)") || (has(r, "response:delta-with-announce-and-withdraw") && has(r, "exchange-succeeded"));
-	if (prop == "C04") { for (auto &kv : r.cls) if (kv.first.compare(0, 6, "fault:") == 0 && (kv.first.find("length") != std::string::npos || kv.first.find("size") != std::string::npos || kv.first.find("unknown-type") != std::string::npos)) return true; return has(r, "hostile-or-raw-payload(set-oracles-off-afterwards)") || has(r, "short-reads"); }
-	if (prop == "C05") return (num(r, "query:reset") + num(r, "query:serial") >= 3 && has(r, "serial-query-after-failed-exchange")) || has(r, "fault:session-mismatch-cache-response") || has(r, "fault:session-mismatch-eod") || has(r, "stop-start-cycles");
-	if (prop == "C07") return (has(r, "open-after-expiry") && has(r, "exchange-succeeded")) || has(r, "stop-start-cycles");
-	if (prop == "C08") return num(r, "exchange-failed") >= 2 && r.converged && has(r, "exchange-succeeded");
-	if (prop == "C13") { for (auto &kv : r.cls) if (kv.first.compare(0, 10, "downgrade:") == 0) return true; return has(r, "fault:wrong-version"); }
-	if (prop == "C14") return has(r, "error-reports-sent");
-	if (prop == "C17") return has(r, "eod-with-out-of-range-or-boundary-interval") || has(r, "serial-notify-in-established") || has(r, "refresh-interval-expired-in-established");
-	if (prop == "C06") return has(r, "reload-swapped-prefix-table-in-one-step") || has(r, "reload-swapped-router-key-table-in-one-step");
-	if (prop == "C18") return num(r, "allocation-failures-that-hit-the-library") > 0;
-	if (prop == "C09" || prop == "C10") return has(r, "failed-after-partial-application(undo-path)") || has(r, "reload-completed(data-present-before)") || has(r, "open-after-expiry");
-	return false;
 }
 
 int main(int argc, char **argv)
